@@ -16,13 +16,31 @@ CHECKS = {
  "C15": ("structural protocol lint over the live class table (ast) + C01 ownership rule",
          "Every __getattr__ hook must raise AttributeError for __deepcopy__/__setstate__/__getstate__ before anything else (decorator wrappers are analysed); shallow-copy decoupling is C01's rule re-evaluated; no unpicklable value stored on instances, no unreviewed protocol overrides. Decides the structural preconditions of the three duplication mechanisms, not the rendered equality of duplicates.",
          "CPython 3.9-3.13 probe names; user-supplied callables excluded", "2/C15"),
+ "C04": ("symbolic render skeletons (ast abstract interpretation): context-flow, evaluation-order vs textual-order of value slots, constructor-guard lint, placeholder table folding",
+         "Decides four structural necessary conditions of placeholder/value agreement for every renderer and every nested render site: the parameterizer is inherited and no child is str()-rendered; evaluation order of value-bearing slots equals textual order; value-wrapper constructor and create_param arguments are guarded against Terms; inline/parameterised branches agree on the alias wrapper and the placeholder table is total, in dialect style, 1-based. The token-for-token relation between the two renderings and SQLite execution are not decided.",
+         "symbolic evaluator covers the string-building subset the renderers use (fails closed otherwise); reference placeholder styles per dialect", "2/C04"),
+ "C06": ("exhaustive finite table from symbolic rendering with concrete operator members and child objects vs SQL precedence table",
+         "Exhaustive over (parent renderer, operand slot, parent operator) x 13 child kinds (about 500 cells): each composite Term class is rendered symbolically, the parenthesisation decision functions fold to constants, and every cell is compared with the standard precedence/associativity table; adjacent '-' fusion is checked on the same table; every Term class must classify (atom/prefix/infix/postfix). Local correctness of all cells implies correctness at any depth because renderers concatenate child text.",
+         "reference precedence table of standard SQL shared by the six dialects; SQLite evaluation is not consulted", "2/C06"),
+ "C08": ("context-flow analysis over render skeletons + sibling comparison of dialect overrides with the generic methods",
+         "At each of ~140 nested render sites the abstract SqlContext passed down must inherit the dialect-bearing fields (own-dialect constant overrides and the outermost default excepted); str()-rendered children, context fields read through a value-manufacturing __getattr__ and fields dropped by SqlContext.copy are flagged; every dialect override that changes what a generic node can also render is tabulated against ctx.dialect use. Cross-dialect token-stream equality is not decided.",
+         "class-hierarchy resolution; six shipped SQL_CONTEXT records", "2/C08"),
+ "C09": ("exhaustive finite evaluation (symbolic, presence-valued) of the pagination selectors vs per-dialect reference grammar",
+         "Exhaustive over 6 builder classes x limit/offset presence x ORDER BY presence (x TOP values for SQL Server) plus _SetOperation x 6 dialects: every cell's emitted fragment sequence is compared with the dialect's row-limiting grammar, slots must read the matching attribute with the inherited context, presence tests must not depend on the number (0 vs positive), setters map arguments to the matching slot. Row semantics on an engine are not decided.",
+         "reference grammars from the property statement / vendor documentation", "2/C09"),
+ "C10": ("context-flow analysis of position flags over statement skeletons",
+         "For every SELECT-reachable clause slot of the six builder classes and _SetOperation the flags subquery/with_alias/subcriterion/with_namespace must be constants or builder-computed, never inherited; the incoming flags are consumed only by one tail wrap with only the alias suffix / upsert clause outside; embedding sites pass the flags their position needs and sibling clauses agree (HAVING like WHERE). Necessary and, with C12/R2, sufficient for position-independent inner text; placeholder renumbering is C04/R2.",
+         "class-hierarchy resolution; statement-kind predicates enumerated concretely", "2/C10"),
+ "C12": ("per-class render skeletons with an alias marker (symbolic evaluation) + context-flow at operand/defining slots",
+         "Every Term subclass in the live class table is rendered with a marker alias: exactly once and last when with_alias is on, never when off (R1); every operand slot of every composite must pass with_alias=False (R2); defining positions of all builder classes pass True (R3); GROUP BY/ORDER BY alias references are guarded by membership in the select list's aliases with alias-free fallback (R4).",
+         "class-hierarchy resolution; user subclasses of Term outside the repository", "2/C12"),
 }
 
 NOT_APPLICABLE = {
  "C03": "equivalence of query results on a real SQLite engine over all databases; no clause is decidable from source without executing SQL (other technique family); its structural ingredients are decided under C06/C11/C13",
 }
 
-PENDING = ["C04", "C05", "C06", "C07", "C08", "C09", "C10", "C11", "C12", "C13", "C14", "C16", "C17", "C18"]
+PENDING = ["C05", "C07", "C11", "C13", "C14", "C16", "C17", "C18"]
 
 
 def main():
